@@ -25,7 +25,7 @@ from common import Ctx, Outcome
 
 from . import decl_lib as L
 
-DRIVERS = ["Decl", "DeclYaml"]
+DRIVERS = ["Decl", "DeclYaml", "DeclTyped"]
 TABLES = True
 LEVEL = "proof"
 RULE = ("(sync) seeded random sync-only documents over the LA metamodel slice: 1-3 instructions, 1-4 sync entries per "
@@ -928,6 +928,232 @@ def run_strict(ctx, out):
     out.extra["strict_end_to_end"] = n
 
 
+# ------------------------------------------------------------------ typed find keys
+
+
+# kind -> (root of empty52, list attribute, `_type` hint or None, python attribute, needs a unique `name` key)
+TYPED_SLOTS = {
+    "string": ("rf", "functions", None, "summary", True),
+    "html": ("rf", "functions", None, "description", True),
+    "bool": ("dp", "classes", None, "is_abstract", True),
+    "enum": ("dp", "classes", None, "visibility", True),
+    "int": ("rf", "property_values", "IntegerPropertyValue", "value", True),
+    "float": ("rf", "property_values", "FloatPropertyValue", "value", True),
+    "datetime": ("req", "attributes", "DateValueAttribute", "value", False),
+}
+TYPED_ALPHA = ["a", "B", " ", "  ", "&", "<", ">", '"', "'", "\t", "\n", "&amp;", "<p>", "</p>", "é", "😀", ";", "x"]
+
+
+def typed_values(rng, kind, enum_names, n_random):
+    """(class label, value) pairs: the boundary values of the kind, the `_fails` witnesses of Props/C13.lean
+    (always present: they are replayed on the implementation in every run), then seeded random ones"""
+    import datetime as dt
+    import math
+
+    tz = dt.timezone
+    vals = [("null", None)]
+    if kind in ("string", "html"):
+        vals += [("empty", ""), ("plain", "plain"), ("amp", "a & b"), ("lt", "a<b"), ("gt", "1 > 0"), ("quote", 'q"uote\''),
+                 ("ws-run", "x  y"), ("lead", " lead"), ("trail", "trail "), ("tab", "tab\there"), ("newline", "new\nline"),
+                 ("escaped", "a &amp; b"), ("markup", "<p>x</p>"), ("markup", "<b>bold</b> text"), ("entity", "&nbsp;")]
+        for _ in range(n_random):
+            vals.append(("random", "".join(rng.choice(TYPED_ALPHA) for _ in range(rng.randint(1, 8)))))
+    elif kind == "bool":
+        vals += [("true", True), ("false", False), ("int0", 0), ("int1", 1), ("str", "true")]
+    elif kind == "enum":
+        vals += [("default-member" if i == 0 else "member", n) for i, n in enumerate(enum_names)]
+        vals += [("unknown-name", "nope"), ("lowercase", enum_names[-1].lower())]
+    elif kind == "int":
+        vals += [("zero", 0), ("one", 1), ("negative", -7), ("large", 2**31), ("huge", 10**30), ("huge-negative", -(10**25)),
+                 ("bool", True), ("bool", False), ("float", 1.5), ("str", "3")]
+        for _ in range(n_random):
+            vals.append(("random", rng.randint(-10**rng.randint(1, 40), 10**rng.randint(1, 40))))
+    elif kind == "float":
+        vals += [("zero", 0.0), ("neg-zero", -0.0), ("finite", 1.5), ("finite", -2.25), ("big", 1e300), ("denormal", 5e-324),
+                 ("inf", math.inf), ("neg-inf", -math.inf), ("nan", math.nan), ("int-zero", 0), ("int-exact", 1), ("int-exact", -3),
+                 ("bool", True), ("int-exact", 2**53), ("int-inexact", 2**53 + 1), ("int-overflow", 10**400), ("str", "1.5")]
+        for _ in range(n_random):
+            if rng.random() < 0.5:
+                vals.append(("random-float", rng.uniform(-1, 1) * 10 ** rng.randint(-20, 20)))
+            else:
+                i = rng.randint(-10**rng.randint(1, 30), 10**rng.randint(1, 30))
+                vals.append(("int-exact" if float(i) == i else "int-inexact", i))
+    elif kind == "datetime":
+        vals += [("naive", dt.datetime(2001, 1, 1, 10, 0, 0)), ("aware-utc", dt.datetime(2001, 1, 1, 10, 0, 0, tzinfo=tz.utc)),
+                 ("aware-ms", dt.datetime(2024, 2, 29, 23, 59, 59, 999000, tzinfo=tz.utc)),
+                 ("aware-us", dt.datetime(2001, 1, 1, 10, 0, 0, 123456, tzinfo=tz.utc)),
+                 ("aware-offset", dt.datetime(1999, 12, 31, 0, 0, 0, tzinfo=tz(dt.timedelta(hours=5, minutes=30)))),
+                 ("aware-neg-offset", dt.datetime(2020, 6, 1, 12, 0, 0, 500000, tzinfo=tz(-dt.timedelta(hours=8)))),
+                 ("naive-us", dt.datetime(2010, 5, 5, 5, 5, 5, 5)), ("date", dt.date(2001, 1, 1)), ("str", "2001-01-01T00:00:00+00:00")]
+        for _ in range(n_random):
+            us = rng.choice([0, 1000 * rng.randint(0, 999), rng.randint(0, 999999)])
+            off = tz(dt.timedelta(minutes=rng.randint(-14 * 60, 14 * 60)))
+            vals.append(("aware-ms" if us % 1000 == 0 else "aware-us",
+                         dt.datetime(rng.randint(1, 9999), rng.randint(1, 12), rng.randint(1, 28), rng.randint(0, 23),
+                                     rng.randint(0, 59), rng.randint(0, 59), us, tzinfo=off)))
+    return vals
+
+
+def typed_json(v):
+    """the YAML value as the Lean driver reads it, plus the oracles CPython/libxml2 answer for it"""
+    import datetime as dt
+    import math
+
+    capellambse, _ = L.cap()
+    extra: dict = {}
+    if v is None:
+        j = {"t": "none"}
+    elif isinstance(v, bool):
+        j = {"t": "bool", "v": v}
+    elif isinstance(v, int):
+        j = {"t": "int", "v": str(v)}
+    elif isinstance(v, float):
+        j = {"t": "float", "v": "nan" if math.isnan(v) else repr(v)}
+    elif isinstance(v, str):
+        j = {"t": "str", "v": v}
+        try:
+            extra["repair"] = str(capellambse.helpers.repair_html(v))
+        except Exception:  # noqa: BLE001
+            extra["repair"] = None
+    elif isinstance(v, dt.datetime):
+        def fields(t):
+            off = t.utcoffset()
+            return [t.year, t.month, t.day, t.hour, t.minute, t.second, t.microsecond,
+                    (off.days * 86400 + off.seconds) * 1000000 + off.microseconds]
+        if v.tzinfo is None:
+            j = {"t": "naive", "v": v.isoformat()}
+            try:
+                extra["localize"] = fields(v.astimezone())
+            except Exception:  # noqa: BLE001
+                extra["localize"] = None
+        else:
+            j = {"t": "aware", "f": fields(v)}
+    else:
+        j = {"t": "other"}
+    if isinstance(v, int):
+        try:
+            extra["fofint"] = repr(float(v))
+            extra["exact"] = float(v) == v
+        except OverflowError:
+            extra["fofint"] = None
+            extra["exact"] = False
+    return j, extra
+
+
+def typed_parent(m, root):
+    if root == "req":
+        return m.la.requirement_modules.create(name="M").requirements.create(name="R")
+    return {"rf": m.la.root_function, "dp": m.la.data_package}[root]
+
+
+def typed_twice(kind, v, k):
+    """`find: {name: <unique>, <attr>: v}` applied twice to a freshly loaded empty_project_52"""
+    import yaml
+
+    capellambse, decl = L.cap()
+    root, attr, hint, pyattr, named = TYPED_SLOTS[kind]
+    m = L.load_model("empty52")
+    par = typed_parent(m, root)
+    find: dict = {}
+    if hint:
+        find["_type"] = hint
+    if named:
+        find["name"] = f"typed {k}"
+    find[pyattr] = v
+    text = yaml.dump([{"parent": decl.UUIDReference(par.uuid), "sync": {attr: [{"find": find}]}}], Dumper=decl.YDMDumper, sort_keys=False)
+    loaded = yaml.load(text, Loader=decl.YDMLoader)[0]["sync"][attr][0]["find"][pyattr]
+    res = {"text": text, "loaded": loaded, "created": [], "errors": [], "cls": None}
+    for _ in range(2):
+        before = {o.uuid for o in getattr(par, attr)}
+        n0 = len(list(m.search()))
+        err = None
+        try:
+            decl.apply(m, io.StringIO(text))
+        except RecursionError:
+            err = "RecursionError"
+        except Exception as e:  # noqa: BLE001
+            err = type(e).__name__
+        res["created"].append(len(list(m.search())) - n0)
+        res["errors"].append(err)
+        new = [o for o in getattr(par, attr) if o.uuid not in before]
+        if new and res["cls"] is None:
+            res["cls"] = type(new[0])
+    return res
+
+
+def run_typed(ctx, out, treq, tpending):
+    import gen_pods
+
+    rng = ctx.rng
+    L.cap()
+    rows = gen_pods.collect()["rows"]
+    row_of = {(r["cls"], r["pyname"]): i for i, r in enumerate(rows)}
+    n_random = pick(ctx, 3, 40)
+    dist: dict = {}
+    k = 0
+    # the class behind every slot: create one probe object per kind on a scratch model
+    probe = L.load_model("empty52")
+    for kind, (root, attr, hint, pyattr, _named) in TYPED_SLOTS.items():
+        par = typed_parent(probe, root)
+        obj = getattr(par, attr).create(hint) if hint else getattr(par, attr).create()
+        cls = type(obj)
+        key = (gen_pods.qual(cls), pyattr)
+        if key not in row_of or rows[row_of[key]]["kind"] != kind:
+            out.find(f"typed-find|slot-not-in-pod-table|{kind}", f"{key} is not a {kind} row of the live POD table", {"kind": "typed-slot", "slot": list(key)})
+            continue
+        row = row_of[key]
+        enum_names = list(getattr(cls, pyattr).enumcls.__members__) if kind == "enum" else []
+        for label, v in typed_values(rng, kind, enum_names, n_random):
+            k += 1
+            res = typed_twice(kind, v, k)
+            v = res["loaded"]  # what PyYAML hands to decl (equal to v; floats/timestamps as parsed)
+            d = dist.setdefault(kind, {})
+            d[label] = d.get(label, 0) + 1
+            e1, e2 = res["errors"]
+            c1, c2 = res["created"]
+            if e1 is not None:
+                impl = f"rejected:{e1}"
+            elif c2 == 0 and e2 is None:
+                impl = "found"
+            elif e2 is not None:
+                impl = f"second-run-raises:{e2}"
+            else:
+                impl = "creates-again"
+            case = {"kind": "typed", "pod": kind, "label": label, "yaml": res["text"]}
+            out.case(("typed", kind, label, repr(v)), None, c1 > 0)
+            out.hit(f"typed.{kind}:{impl}")
+            out.traces_validated += 1
+            # monitor: a find value the first run accepted must be found by the second
+            if e1 is None and c1 != 1:
+                out.find(f"typed-find|first-run-creates:{c1}|{kind}-find-key",
+                         f"find key {pyattr}={v!r} ({kind}): the first run created {c1} objects", case)
+            elif e1 is None and impl != "found":
+                sig_kind = "null" if v is None else kind
+                out.find(f"sync-twice|{'creates-again' if impl == 'creates-again' else impl}|{sig_kind}-find-key",
+                         f"empty52: find key {pyattr}={v!r} on a {kind} attribute ({label}): the object the first run created "
+                         f"is not found by the second ({impl}): the value read back does not equal the value written in the document", case)
+            j, extra = typed_json(v)
+            treq.append(dict({"op": "typed", "row": row, "value": j}, **extra))
+            tpending.append((kind, label, key, case, impl))
+    out.extra["typed_find_inputs"] = dist
+
+
+def judge_typed(out, tpending, answers):
+    for (kind, label, key, case, impl), ans in zip(tpending, answers):
+        if "err" in ans:
+            out.disagree("driver.typed-find", case, impl, ans)
+            continue
+        a = ans["ok"]
+        if (a["cls"], a["pyname"], a["kind"]) != (key[0], key[1], kind):
+            out.disagree("typed-find.table-row", case, [key[0], key[1], kind], [a["cls"], a["pyname"], a["kind"]])
+            continue
+        out.hit(f"model.typed.{kind}:{a['twice'].split(':')[0]}" + ("+keyOk" if a["keyOk"] else ""))
+        if a["twice"] != impl or a["finds"] != (impl == "found"):
+            out.disagree("typed-find", case, impl, {"twice": a["twice"], "finds": a["finds"]})
+        elif a["keyOk"] and impl != "found":
+            out.disagree("typed-find.theorem-instance", case, impl, a)
+
+
 # ------------------------------------------------------------------ run
 
 
@@ -936,8 +1162,9 @@ def run(ctx: Ctx) -> Outcome:
     out = Outcome(rule=RULE)
     bases = {k: L.Base(k) for k in (["empty52", "melody52", "write"] +
                                     (["melody50", "melody60"] if ctx.thorough and os.environ.get("VERIF_WIDEN") != "1" else []))}
-    req, pending, yreq, ypending = [], [], [], []
+    req, pending, yreq, ypending, treq, tpending = [], [], [], [], [], []
     run_sync(ctx, out, bases, req, pending)
+    run_typed(ctx, out, treq, tpending)
     run_yaml(ctx, out, yreq, ypending)
     run_meta(ctx, out, yreq, ypending)
     run_strict(ctx, out)
@@ -973,6 +1200,7 @@ def run(ctx: Ctx) -> Outcome:
             elif m2[0] == "ok" and a["created"] != res["created_second"]:
                 out.disagree(f"sync.created.{flavour}", case, res["created_second"], a["created"])
             out.hit("model.second:" + (m2[0] if m2[0] == "ok" else m2[1]["error"]))
+        judge_typed(out, tpending, common.model(treq, driver="DeclTyped") if treq else [])
         yans = []
         for i in range(0, len(yreq), 20000):
             yans += common.model(yreq[i:i + 20000], driver="DeclYaml")
@@ -1012,6 +1240,24 @@ def replay(ctx: Ctx, case: dict):
         o = Outcome()
         judge_sync(o, base, case["doc"], case["flavour"], res, {})
         return o.findings[0].what if o.findings else None
+    if case.get("kind") == "typed":
+        import yaml
+
+        m = L.load_model("empty52")
+        doc = yaml.load(case["yaml"], Loader=decl.YDMLoader)
+        root, attr, _hint, _py, _n = TYPED_SLOTS[case["pod"]]
+        par = typed_parent(m, root)
+        doc[0]["parent"] = decl.UUIDReference(par.uuid)
+        text = yaml.dump(doc, Dumper=decl.YDMDumper, sort_keys=False)
+        counts = []
+        for _ in range(2):
+            n0 = len(list(m.search()))
+            try:
+                decl.apply(m, io.StringIO(text))
+            except Exception as e:  # noqa: BLE001
+                return f"sync with a typed find key raises {type(e).__name__}: {str(e)[:160]}" if counts else None
+            counts.append(len(list(m.search())) - n0)
+        return f"second run creates {counts[1]} more object(s)" if counts[1] else None
     if case.get("kind") == "yaml":
         memo: dict = {}
 
